@@ -28,10 +28,10 @@ fn replace_case<const L: usize>() {
     ref_canon(&data[..], false, &mut exp);
     let got = Pack::<1>::of12(&out);
     if L >= 2 {
-        kani::cover!(data[0] == b'\r' && data[1] == b'\n', "CRLF kept");
+        kani::cover!(data[0] == b'\r' && data[1] == b'\n', "maybe: CRLF kept");
     }
     if L >= 1 {
-        kani::cover!(data[L - 1] == b'\n', "ends in LF");
+        kani::cover!(data[L - 1] == b'\n', "maybe: ends in LF");
     }
     assert!(got.len == exp.len, "C14 replace_newlines: canonical length differs from reference");
     assert!(got.same(&exp), "C14 replace_newlines: canonical bytes differ from reference");
